@@ -45,7 +45,11 @@ def catalogs():
 
 
 def probe_catalogs():
-    c = catalogs()
+    """name -> catalog.  Besides the base catalogs, every SHAPE name `<base>|<record>.<key>=<json or ~>|…`
+    (tools/harness/catshape.py: a base catalog with keys of a model / integration record removed, set to None, emptied or
+    given another type) is built on demand, so witnesses and replays can name the catalog they failed on."""
+    from . import catshape
+    c = catshape.Catalogs(catalogs())
     c['api'] = dict(integrations=[{'name': 'int1', 'class_type': 'api', 'type': 'data'}, 'int2'],
                     predictor_namespace='mindsdb', predictor_metadata=copy.deepcopy(MODELS))
     c['none'] = dict(integrations=['int1', 'int2'])
@@ -402,7 +406,10 @@ def recase(sql, rng, classes, consistent=True):
     return ''.join(out)
 
 
-def probe_stream(rng, n):
+def probe_stream(rng, n, shapes=False):
+    """(statement, catalog name); with `shapes` a quarter of the statements get a SHAPE catalog (catshape.py) — C09 only:
+    other users of the stream (C18) keep the base catalogs"""
+    from . import catshape
     g = Gen(rng)
     cats = probe_catalogs()
     names = sorted(cats)
@@ -414,6 +421,10 @@ def probe_stream(rng, n):
             # identifier case variation: CTE names, aliases, integration / table / model / column names
             classes = [c for c in all_classes if rng.random() < 0.5] or [rng.choice(all_classes)]
             sql = recase(sql, rng, classes, consistent=rng.random() < 0.7)
+        if shapes and rng.random() < 0.25:
+            # catalog SHAPES: one to three keys of model / integration records absent, None, empty or of another type
+            base = cat if cat in catshape.SHAPE_BASES else rng.choice(catshape.SHAPE_BASES)
+            cat = catshape.shape_name(base, catshape.random_edits(rng))
         yield sql, cat
 
 
